@@ -323,7 +323,7 @@ def gen_history(rng, flavour):
         if c < .40:
             cur["code"] = rng.choice([x for x in range(8) if x != cur["code"]])       # edit main / module / -D / switch source
         elif c < .52:
-            cur["cmd"] = rng.choice([x for x in range(3) if x != cur["cmd"]])          # --cflags
+            cur["cmd"] = rng.choice([x for x in (0, 1, 2, 100, 101) if x != cur["cmd"]])   # --cflags / --release
         elif c < .52 + p_cc:
             cur["cc"] = 1 - cur["cc"]                                                   # compiler behind the name changes
         elif c < .64 and flavour != "spaced":
